@@ -689,6 +689,12 @@ func (r *Run) originOf(fn *Func, x ast.Expr, depth int) (ast.Expr, *Func) {
 			}
 			cl, ok := ast.Unparen(base).(*ast.CompositeLit)
 			if !ok {
+				// the holder is not in sight (a receiver, a parameter with several call sites): when the field is given
+				// a value at exactly one place of the package, that value is the one
+				if sx, sfn := r.soleFieldSetter(fn, sel.Obj().(*types.Var)); sx != nil {
+					fn, x = sfn, sx
+					continue
+				}
 				return x, fn
 			}
 			fv := litField(cl, sel.Obj().Name())
@@ -696,9 +702,87 @@ func (r *Run) originOf(fn *Func, x ast.Expr, depth int) (ast.Expr, *Func) {
 				return x, fn
 			}
 			fn, x = bfn, fv
+		case *ast.CallExpr:
+			// a builder of the repository with one return statement: what it returns
+			g, _ := calleeObj(fn.Info(), v).(*types.Func)
+			gd := r.P.Funcs[g]
+			if g == nil || gd == nil || gd.Body == nil || depth > 3 {
+				return x, fn
+			}
+			var rets []*ast.ReturnStmt
+			ast.Inspect(gd.Body, func(nd ast.Node) bool {
+				if _, isLit := nd.(*ast.FuncLit); isLit {
+					return false
+				}
+				if rs, ok := nd.(*ast.ReturnStmt); ok {
+					rets = append(rets, rs)
+				}
+				return true
+			})
+			if len(rets) != 1 || len(rets[0].Results) != 1 {
+				return x, fn
+			}
+			if _, isLit := ast.Unparen(rets[0].Results[0]).(*ast.CompositeLit); isLit {
+				return rets[0].Results[0], gd
+			}
+			if _, isID := ast.Unparen(rets[0].Results[0]).(*ast.Ident); !isID {
+				return x, fn
+			}
+			fn, x = gd, rets[0].Results[0]
+			depth++
 		default:
 			return x, fn
 		}
 	}
 	return x, fn
+}
+
+// soleFieldSetter: the one expression of the field's package that gives the struct field a value (a keyed element
+// of a composite literal of its struct, or an assignment to a selection of it); nil when there are none or several.
+func (r *Run) soleFieldSetter(from *Func, fv *types.Var) (ast.Expr, *Func) {
+	var x ast.Expr
+	var xfn *Func
+	n := 0
+	funcs := append([]*Func{}, r.P.All...)
+	for _, lf := range r.P.Lits {
+		funcs = append(funcs, lf)
+	}
+	for _, g := range funcs {
+		if g.Body == nil || fv.Pkg() == nil || g.Pkg.PkgPath != fv.Pkg().Path() {
+			continue
+		}
+		info := g.Info()
+		ast.Inspect(g.Body, func(nd ast.Node) bool {
+			if l, isLit := nd.(*ast.FuncLit); isLit && r.P.Lits[l] != g {
+				return false
+			}
+			switch v := nd.(type) {
+			case *ast.CompositeLit:
+				for _, el := range v.Elts {
+					if kv, ok := el.(*ast.KeyValueExpr); ok {
+						if id, ok := kv.Key.(*ast.Ident); ok && info.Uses[id] == types.Object(fv) {
+							n++
+							x, xfn = kv.Value, g
+						}
+					}
+				}
+			case *ast.AssignStmt:
+				for i, l := range v.Lhs {
+					if se, ok := ast.Unparen(l).(*ast.SelectorExpr); ok && info.Uses[se.Sel] == types.Object(fv) {
+						n++
+						if len(v.Rhs) == len(v.Lhs) {
+							x, xfn = v.Rhs[i], g
+						} else {
+							n++ // a multi-value assignment: not followed
+						}
+					}
+				}
+			}
+			return true
+		})
+	}
+	if n != 1 {
+		return nil, nil
+	}
+	return x, xfn
 }
